@@ -409,6 +409,133 @@ End Laws.
 
 End Solve.
 
+(* ------------------------------------------------------------------------------------------ *)
+(* 7. convergence for binary64                                                                  *)
+(* ------------------------------------------------------------------------------------------ *)
+
+(* an integer sequence that never increases and is bounded below is stationary somewhere *)
+Lemma z_descent (u : nat -> Z) (L : Z) :
+  (forall k, u (S k) <= u k) -> (forall k, L <= u k) -> exists K, u (S K) = u K.
+Proof.
+  intros Hd Hl.
+  assert (G : forall n k, u k - L <= Z.of_nat n -> exists K, u (S K) = u K).
+  { induction n as [|n IH]; intros k Hk.
+    - exists k. pose proof (Hd k). pose proof (Hl k). pose proof (Hl (S k)). lia.
+    - destruct (Z.eq_dec (u (S k)) (u k)) as [E|N]; [exists k; exact E|].
+      apply (IH (S k)). pose proof (Hd k). lia. }
+  apply (G (Z.to_nat (u O - L)) O). pose proof (Hl O). lia.
+Qed.
+
+Lemma Forall2_len {A B} (R : A -> B -> Prop) l1 l2 : Forall2 R l1 l2 -> length l1 = length l2.
+Proof. induction 1; cbn; congruence. Qed.
+Lemma Forall2_nth_intro {A} (R : A -> A -> Prop) d (l1 l2 : list A) :
+  length l1 = length l2 -> (forall n, (n < length l1)%nat -> R (nth n l1 d) (nth n l2 d)) -> Forall2 R l1 l2.
+Proof.
+  revert l2. induction l1 as [|x l1 IH]; intros [|y l2] Hl Hn; try discriminate Hl; constructor.
+  - apply (Hn O). cbn. lia.
+  - apply IH; [cbn in Hl; lia|]. intros n Hlt. apply (Hn (S n)). cbn. lia.
+Qed.
+
+Section RankSum.
+Notation float := PrimFloat.float.
+Notation los := (@le_or_same float NumF).
+
+(* the sum of the ranks of all entries: a pass that lowers entries lowers it, strictly unless nothing changed *)
+Definition rsum (l : list float) : Z := fold_right (fun x acc => frank x + acc) 0 l.
+
+Lemma los_rank a b : los a b -> a = b \/ frank a < frank b.
+Proof. intros [E|L]; [left; exact E | right; apply frank_lt; exact L]. Qed.
+
+Lemma rsum_le l1 l2 : Forall2 los l1 l2 -> rsum l1 <= rsum l2 /\ (rsum l1 = rsum l2 -> l1 = l2).
+Proof.
+  induction 1 as [|a b l1 l2 Hab _ [IH1 IH2]]; cbn [rsum fold_right]; [split; [lia | reflexivity]|].
+  fold (rsum l1). fold (rsum l2). destruct (los_rank _ _ Hab) as [->|Hlt].
+  - split; [lia|]. intros E. f_equal. apply IH2. lia.
+  - split; [lia|]. intros E. exfalso. lia.
+Qed.
+
+Lemma rsum_lower l : - (Z.of_nat (length l) * 2 ^ 2100) <= rsum l.
+Proof.
+  induction l as [|x l IH]; [cbn; lia|]. cbn [rsum fold_right]. fold (rsum l).
+  pose proof (frank_bounded x) as Hx. set (B := 2 ^ 2100) in *. cbn [length]. rewrite Nat2Z.inj_succ. lia.
+Qed.
+
+(* any map on grids that keeps the shape and lowers (or keeps, bit for bit) every entry is eventually constant *)
+Section Gen.
+Variables (f : arr float -> arr float) (ok : arr float -> Prop).
+Hypothesis Hf : forall a, ok a -> ok (f a) /\ shape (f a) = shape a /\ Forall2 los (dat (f a)) (dat a).
+
+Lemma iter_ok t0 k : ok t0 -> ok (Nat.iter k f t0).
+Proof. intros H0. induction k as [|k IH]; [exact H0|]. rewrite iter_S. apply Hf, IH. Qed.
+Lemma iter_len t0 k : ok t0 -> length (dat (Nat.iter k f t0)) = length (dat t0).
+Proof. intros H0. induction k as [|k IH]; [reflexivity|]. rewrite iter_S.
+  destruct (Hf _ (iter_ok t0 k H0)) as (_ & _ & F). rewrite (Forall2_len _ _ _ F). exact IH. Qed.
+
+Theorem lowering_iter_converges t0 :
+  ok t0 -> exists K, forall k, (K <= k)%nat -> Nat.iter k f t0 = Nat.iter K f t0.
+Proof.
+  intros H0.
+  destruct (z_descent (fun k => rsum (dat (Nat.iter k f t0))) (- (Z.of_nat (length (dat t0)) * 2 ^ 2100))) as [K E].
+  - intros k. rewrite iter_S. destruct (Hf _ (iter_ok t0 k H0)) as (_ & _ & F). apply (rsum_le _ _ F).
+  - intros k. rewrite <- (iter_len t0 k H0). apply rsum_lower.
+  - exists K. apply iter_fixed_stays. cbv beta in E. rewrite iter_S in E |- *.
+    destruct (Hf _ (iter_ok t0 K H0)) as (_ & Hs & F). apply (rsum_le _ _ F) in E.
+    destruct (f (Nat.iter K f t0)) as [s1 d1], (Nat.iter K f t0) as [s2 d2]. cbn [shape dat] in *. congruence.
+Qed.
+End Gen.
+
+(* 2D grids: pointwise order on indices = pointwise order on the data lists *)
+Lemma leT_Forall2 nz nx (a b : arr float) :
+  0 < nx -> okT nz nx a -> okT nz nx b -> leT nz nx a b -> Forall2 los (dat a) (dat b).
+Proof.
+  intros Hnx [[La Fa] Sa] [[Lb _] Sb] Hle.
+  rewrite Sa in La, Fa. rewrite Sb in Lb. unfold prodZ in La, Lb. cbn [fold_right] in La, Lb.
+  assert (Hnz : 0 <= nz) by (inversion Fa; assumption).
+  apply (Forall2_nth_intro _ (nofZ 0)); [congruence|]. intros n Hn.
+  assert (Hn' : 0 <= Z.of_nat n < nz * nx) by nia.
+  destruct (decomp2 (Z.of_nat n) nz nx Hn' Hnx) as (Hp & Hq & En).
+  specialize (Hle _ _ Hp Hq). unfold get in Hle. rewrite Sa, Sb in Hle. unfold flat in Hle. cbn [flat_aux] in Hle.
+  replace ((0 * nz + Z.of_nat n / nx) * nx + Z.of_nat n mod nx) with (Z.of_nat n) in Hle by lia.
+  rewrite Nat2Z.id in Hle. exact Hle.
+Qed.
+
+Section F2d.
+Variables (slow : arr float) (dz dx zsrc xsrc : float).
+Hypothesis Hz : 0 <= dim slow 0.
+Hypothesis Hx : 0 <= dim slow 1.
+Notation NZ := (dim slow 0 + 1).
+Notation NX := (dim slow 1 + 1).
+
+(* the traveltime grid after k sweeps *)
+Definition grid2d (grad : bool) (k : nat) : arr float :=
+  fst (Nat.iter k (pass2d slow dz dx zsrc xsrc grad) (i_tt slow dz dx zsrc xsrc grad, i_ttsgn slow dz dx zsrc xsrc grad)).
+
+Theorem fteik2d_converges grad : exists K, forall k, (K <= k)%nat -> grid2d grad k = grid2d grad K.
+Proof.
+  unfold grid2d.
+  destruct (lowering_iter_converges (ptt slow dz dx zsrc xsrc grad) (okT NZ NX)) with (t0 := i_tt slow dz dx zsrc xsrc grad)
+    as [K HK].
+  - intros a Ha. destruct (ptt_lowers slow dz dx zsrc xsrc grad a Ha) as [Ho Hl].
+    split; [exact Ho|]. split; [destruct Ho as [_ ->], Ha as [_ ->]; reflexivity|].
+    apply (leT_Forall2 NZ NX); auto. lia.
+  - apply fteik2d_init_okT; assumption.
+  - exists K. intros k Hk. rewrite !(iter_fst _ _ (pass2d_fst slow dz dx zsrc xsrc grad)). cbn [fst]. apply HK, Hk.
+Qed.
+
+(* the same, on the results of fteik2d: from some sweep count on, the returned grid no longer changes *)
+Corollary fteik2d_converges_results grad :
+  exists K, forall n m ttn Gn vn ttm Gm vm, K <= n <= m ->
+    fteik2d slow dz dx zsrc xsrc n grad = Ok (ttn, Gn, vn) ->
+    fteik2d slow dz dx zsrc xsrc m grad = Ok (ttm, Gm, vm) -> ttm = ttn.
+Proof.
+  destruct (fteik2d_converges grad) as [K HK]. exists (Z.of_nat K). intros n m ttn Gn vn ttm Gm vm Hnm En Em.
+  apply fteik2d_ok_inv in En as (_ & -> & _). apply fteik2d_ok_inv in Em as (_ & -> & _).
+  unfold grid2d in HK. rewrite !(iter_fst _ _ (pass2d_fst slow dz dx zsrc xsrc grad)) in HK. cbn [fst] in HK.
+  rewrite (HK (Z.to_nat m)), (HK (Z.to_nat n)) by lia. reflexivity.
+Qed.
+End F2d.
+End RankSum.
+
 Print Assumptions fteik2d_raises_iff.
 Print Assumptions fteik2d_nsweep_iter.
 Print Assumptions fteik2d_fixed_stays.
@@ -416,3 +543,5 @@ Print Assumptions fteik2d_init_okT.
 Print Assumptions fteik2d_monotone_in_nsweep.
 Print Assumptions fteik2d_monotone_in_nsweep_le.
 Print Assumptions fteik2d_tt_indep_of_grad.
+Print Assumptions fteik2d_converges.
+Print Assumptions fteik2d_converges_results.
